@@ -8,6 +8,7 @@ import (
 	"net/http"
 	"net/http/httptest"
 	"net/url"
+	"os"
 	"runtime"
 	"strings"
 
@@ -85,6 +86,20 @@ type monWorld struct {
 	busy    int
 	reqsRun int
 	torn    int
+	slow    int
+}
+
+type slowWriter struct {
+	*httptest.ResponseRecorder
+	slowness int // scheduling points per write
+}
+
+func (s slowWriter) Write(p []byte) (int, error) {
+	for i := 0; i < s.slowness; i++ {
+		sched.Yield("monitor-response:write")
+	}
+
+	return s.ResponseRecorder.Write(p)
 }
 
 func (w *monWorld) kind() string {
@@ -148,6 +163,27 @@ func genC40(r *kit.Rand, tier kit.Tier) MonCase {
 		c.Reqs = append(c.Reqs, MonReq{G: r.Intn(c.Gs), Kind: reqKinds[r.Intn(len(reqKinds))], Comp: r.Intn(len(c.Budgets))})
 	}
 
+	// one run in three: a user who pauses, looks around and continues, while a second
+	// client (a dashboard that polls) inspects components the whole time
+	if r.Chance(1, 3) {
+		c.Gs, c.Reqs = 2, nil
+		inspect := []string{"component", "field", "page", "progress", "state"}
+
+		for round := 0; round < r.Range(1, 3); round++ {
+			c.Reqs = append(c.Reqs, MonReq{G: 0, Kind: "pause"})
+
+			for i := 0; i < r.Range(0, 2); i++ {
+				c.Reqs = append(c.Reqs, MonReq{G: 0, Kind: inspect[r.Intn(len(inspect))], Comp: r.Intn(len(c.Budgets))})
+			}
+
+			c.Reqs = append(c.Reqs, MonReq{G: 0, Kind: "continue"})
+		}
+
+		for i := 0; i < r.Range(3, 8); i++ {
+			c.Reqs = append(c.Reqs, MonReq{G: 1, Kind: inspect[r.Intn(3)], Comp: r.Intn(len(c.Budgets))})
+		}
+	}
+
 	return c
 }
 
@@ -163,7 +199,17 @@ func (w *monWorld) request(h http.Handler, q MonReq) {
 	}[q.Kind]
 
 	rec := httptest.NewRecorder()
-	h.ServeHTTP(rec, httptest.NewRequest(http.MethodGet, path, nil))
+
+	var rw http.ResponseWriter = rec
+	if slowness := []int{0, 1, 4, 16}[(w.c.Seed>>18)&3]; slowness > 0 {
+		// a client that takes the response slowly: every write of the handler is a
+		// scheduling point (the component serializer reads a value, writes it, reads
+		// the next one, ...)
+		rw = slowWriter{rec, slowness}
+		w.slow++
+	}
+
+	h.ServeHTTP(rw, httptest.NewRequest(http.MethodGet, path, nil))
 	w.reqsRun++
 	body := rec.Body.String()
 
@@ -282,7 +328,8 @@ func head1(s string) string {
 
 func runMon(c *MonCase, reqs []MonReq) (*monWorld, *sched.Sched, any) {
 	w := &monWorld{c: c}
-	s := &sched.Sched{MaxSteps: 120000}
+	s := &sched.Sched{MaxSteps: 120000, KeepTrace: os.Getenv("VERIF_C40_TRACE") != ""}
+	s.YieldOnUnlock = sched.UnlockYields(c.Seed)
 	s.Choose = sched.ListChooser(c.Decisions, sched.MixedChooser(c.Seed, s))
 
 	if c.Decisions != nil {
@@ -390,6 +437,10 @@ func execC40(c MonCase, env *kit.Env) kit.Outcome {
 	w, s, panicked := runMon(&c, c.Reqs)
 	out.Steps = uint64(s.Steps)
 
+	if os.Getenv("VERIF_C40_TRACE") != "" {
+		fmt.Fprintf(os.Stderr, "trace (%d steps, torn=%d): %v\n", s.Steps, w.torn, s.Trace)
+	}
+
 	ticks := 0
 	for _, q := range c.Reqs {
 		if q.Kind == "tick" {
@@ -436,6 +487,7 @@ func execC40(c MonCase, env *kit.Env) kit.Outcome {
 	out.Probe("scheduler-decisions-with-choice", countChoices(s))
 	out.Probe("requests-issued", w.reqsRun)
 	out.Fault("monitor-request-while-running", w.reqsRun)
+	out.Fault("slow-client-response", w.slow)
 	out.Sample = map[string]any{"engine": w.kind(), "components": len(c.Budgets), "requests": len(c.Reqs), "scheduler_steps": s.Steps}
 
 	return out
@@ -449,7 +501,7 @@ func init() {
 		Assumptions: []string{"word-sized unsynchronised reads whose value cannot be seen torn (/api/now, buffer levels) are not judged: the scheduler is sequentially consistent, and the Go race detector sees every hand-over of the token as synchronisation", "profile, trace-control, resource and static routes are not exercised (they do not touch simulation state)"},
 		Real:        []string{"monitoring2/monitor.go (woven)", "timing/serialengine.go, parallelengine.go, eventqueue.go (woven)", "modeling/ticker.go (woven)", "daisen2/internal/httpapi/progress.go (woven)", "queueing.Buffer", "goseth serializer", "net/http mux + httptest recorder"},
 		Stubs:       []string{"requester goroutines instead of HTTP clients on a socket", "seeded scheduler"},
-		FaultKinds:  []string{"monitor-request-while-running"},
+		FaultKinds:  []string{"monitor-request-while-running", "slow-client-response"},
 		Quick:       kit.Budget{Runs: 4000, WallS: 120, CaseS: 120},
 		Thorough:    kit.Budget{Runs: 200000, WallS: 1500, CaseS: 300},
 		Gen:         genC40, Exec: execC40,
